@@ -91,3 +91,145 @@ package codescan
 //@ ensures (typeStr == TypeBoolean || typeStr == TypeBool) && vs_boolOK(valueStr) ==> result == interface{}(vs_bool(valueStr))
 //@ ensures !(typeStr == TypeInteger || typeStr == TypeNumber) && !(typeStr == TypeBoolean || typeStr == TypeBool) ==> result == interface{}(valueStr)
 //@ ensures (typeStr == TypeInteger || typeStr == TypeNumber) && !vs_floatOK(valueStr) ==> result == interface{}(valueStr)
+
+// ---- C17: more annotation parsers never panic ----
+
+//@ func (*setMaximum).Parse
+//@ props C17
+//@ safety
+//@ requires sm != nil && sm.builder != nil
+
+//@ func (*setMinimum).Parse
+//@ props C17
+//@ safety
+//@ requires sm != nil && sm.builder != nil
+
+//@ func (*setMultipleOf).Parse
+//@ props C17
+//@ safety
+//@ requires sm != nil && sm.builder != nil
+
+//@ func (*setMaxItems).Parse
+//@ props C17
+//@ safety
+//@ requires sm != nil && sm.builder != nil
+
+//@ func (*setMinItems).Parse
+//@ props C17
+//@ safety
+//@ requires sm != nil && sm.builder != nil
+
+//@ func (*setMaxLength).Parse
+//@ props C17
+//@ safety
+//@ requires sm != nil && sm.builder != nil
+
+//@ func (*setMinLength).Parse
+//@ props C17
+//@ safety
+//@ requires sm != nil && sm.builder != nil
+
+//@ func (*setPattern).Parse
+//@ props C17
+//@ safety
+//@ requires sm != nil && sm.builder != nil
+
+//@ func (*setCollectionFormat).Parse
+//@ props C17
+//@ safety
+//@ requires sm != nil && sm.builder != nil
+
+//@ func (*setUnique).Parse
+//@ props C17
+//@ safety
+//@ requires su != nil && su.builder != nil
+
+//@ func (*setEnum).Parse
+//@ props C17
+//@ safety
+//@ requires se != nil && se.builder != nil
+
+//@ func (*setDefault).Parse
+//@ props C17
+//@ safety
+//@ requires sd != nil && sd.builder != nil
+
+//@ func (*setExample).Parse
+//@ props C17
+//@ safety
+//@ requires se != nil && se.builder != nil
+
+//@ func (*setRequiredParam).Parse
+//@ props C17
+//@ safety
+//@ requires su != nil && su.tgt != nil
+
+//@ func (*setReadOnlySchema).Parse
+//@ props C17
+//@ safety
+//@ requires su != nil && su.tgt != nil
+
+//@ func (*setDeprecatedOp).Parse
+//@ props C17
+//@ safety
+//@ requires su != nil && su.tgt != nil
+
+//@ func (*setDiscriminator).Parse
+//@ props C17
+//@ safety
+//@ requires su != nil && su.schema != nil
+
+//@ func (*setRequiredSchema).Parse
+//@ props C17
+//@ safety
+//@ requires su != nil && su.schema != nil
+
+//@ func (*setSchemes).Parse
+//@ props C17
+//@ safety
+//@ requires ss != nil && ss.set != nil
+
+//@ func (*setSecurity).Parse
+//@ props C17
+//@ safety
+//@ requires ss != nil && ss.set != nil
+
+//@ func parseTags
+//@ props C17
+//@ safety
+
+//@ func parseEnum
+//@ props C17
+//@ safety
+
+//@ func parseEnumOld
+//@ props C17
+//@ safety
+
+//@ stable C17 setDefault.builder
+//@ stable C17 setExample.builder
+
+//@ func parseValueFromSchema
+//@ props C17
+//@ safety
+
+//@ func splitURL
+//@ props C17
+//@ safety
+
+//@ func shouldAcceptTag
+//@ props C17
+//@ safety
+
+//@ func shouldAcceptPkg
+//@ props C17
+//@ safety
+
+//@ func getType
+//@ props C17
+//@ safety
+//@ requires schema != nil
+
+//@ func contains
+//@ props C17
+//@ safety
